@@ -891,6 +891,281 @@ lemma deletesKeepLatest(l Log, s map[int64]struct{}, o int64)
     ensures  !gHasValue[l][o] && (forall p int64 :: gLive[l][p] && gKey[l][p] == gKey[l][o] ==> p == o)
 
 
+// ================================================================ Trim* and Compact* wrappers (C15, C16)
+// selection + removal composed by the verifier: each wrapper is checked against the contracts of
+// FindByX, FindUpdates, FindDeletes and of Delete, DeleteMulti, DeleteMultiOffsets (callee bodies are not seen).
+// [pass_*]: the wrapper hands its own log and bound to the selection and the selection, unchanged, to the
+// removal on the same log.
+
+pred lastOfKey(lv map[int64]bool, l Log, o int64) :=
+    lv[o] && (forall p int64 :: lv[p] && gKey[l][p] == gKey[l][o] ==> p <= o)
+func TrimByOffset
+    flags noframe
+    requires absWf(l)
+    assigns gLive, gCount, gTotal, gDeleted
+    ensures[wf]    absWf(l) && gNext[l] == old(gNext[l])
+    ensures[keeps] forall o int64 :: gLive[l][o] ==> old(gLive[l][o])
+    // no message outside the prefix is touched
+    ensures[outside] forall o int64 :: old(gLive[l][o]) && (before == message.OffsetOldest || o >= ite(before == message.OffsetNewest, gNext[l], before)) ==> gLive[l][o]
+    assert[pass_find]   arg1 == l && arg2 == before at call FindByOffset 1
+    assert[pass_delete] recv == l && arg0 == offsets at call Log.Delete 1
+
+func TrimByOffsetMulti
+    flags noframe
+    requires absWf(l)
+    assigns gLive, gCount, gTotal, gDeleted
+    ensures[wf]    absWf(l) && gNext[l] == old(gNext[l])
+    ensures[keeps] forall o int64 :: gLive[l][o] ==> old(gLive[l][o])
+    // no message outside the prefix is touched
+    ensures[outside] forall o int64 :: old(gLive[l][o]) && (before == message.OffsetOldest || o >= ite(before == message.OffsetNewest, gNext[l], before)) ==> gLive[l][o]
+    // the bound holds: no live offset below the given offset
+    ensures[bound]   err == nil && before != message.OffsetOldest ==> forall o int64 :: gLive[l][o] ==> o >= ite(before == message.OffsetNewest, gNext[l], before)
+    assert[pass_find]   arg1 == l && arg2 == before at call FindByOffset 1
+    assert[pass_delete] arg1 == l && arg2 == offsets at call DeleteMulti 1
+
+func TrimByOffsetMultiOffsets
+    flags noframe
+    requires absWf(l)
+    assigns gLive, gCount, gTotal, gDeleted
+    ensures[wf]    absWf(l) && gNext[l] == old(gNext[l])
+    ensures[keeps] forall o int64 :: gLive[l][o] ==> old(gLive[l][o])
+    // no message outside the prefix is touched
+    ensures[outside] forall o int64 :: old(gLive[l][o]) && (before == message.OffsetOldest || o >= ite(before == message.OffsetNewest, gNext[l], before)) ==> gLive[l][o]
+    // the bound holds: no live offset below the given offset
+    ensures[bound]   err == nil && before != message.OffsetOldest ==> forall o int64 :: gLive[l][o] ==> o >= ite(before == message.OffsetNewest, gNext[l], before)
+    assert[pass_find]   arg1 == l && arg2 == before at call FindByOffset 1
+    assert[pass_delete] arg1 == l && arg2 == offsets at call DeleteMultiOffsets 1
+
+func TrimByCount
+    flags noframe
+    requires absWf(l)
+    assigns gLive, gCount, gTotal, gDeleted
+    ensures[wf]    absWf(l) && gNext[l] == old(gNext[l])
+    ensures[keeps] forall o int64 :: gLive[l][o] ==> old(gLive[l][o])
+    ensures[none]    old(gCount[l]) <= max ==> forall o int64 :: old(gLive[l][o]) ==> gLive[l][o]
+    // what is removed lies inside a live prefix of exactly Messages-max elements (the selection handed to the removal)
+    assert[selection] gCount[l] > max && max >= 0 ==> livePrefix(l, offsets) && len(offsets) == gCount[l] - max at call Log.Delete 1
+    assert[pass_find]   arg1 == l && arg2 == max at call FindByCount 1
+    assert[pass_delete] recv == l && arg0 == offsets at call Log.Delete 1
+
+func TrimByCountMulti
+    flags noframe
+    requires absWf(l)
+    assigns gLive, gCount, gTotal, gDeleted
+    ensures[wf]    absWf(l) && gNext[l] == old(gNext[l])
+    ensures[keeps] forall o int64 :: gLive[l][o] ==> old(gLive[l][o])
+    ensures[none]    old(gCount[l]) <= max ==> forall o int64 :: old(gLive[l][o]) ==> gLive[l][o]
+    // what is removed lies inside a live prefix of exactly Messages-max elements (the selection handed to the removal)
+    assert[selection] gCount[l] > max && max >= 0 ==> livePrefix(l, offsets) && len(offsets) == gCount[l] - max at call DeleteMulti 1
+    // and, when the removal succeeds, it is a prefix of the live sequence
+    ensures[prefix]  err == nil ==> forall o int64, p int64 :: old(gLive[l][o]) && !gLive[l][o] && old(gLive[l][p]) && p < o ==> !gLive[l][p]
+    assert[pass_find]   arg1 == l && arg2 == max at call FindByCount 1
+    assert[pass_delete] arg1 == l && arg2 == offsets at call DeleteMulti 1
+
+func TrimByCountMultiOffsets
+    flags noframe
+    requires absWf(l)
+    assigns gLive, gCount, gTotal, gDeleted
+    ensures[wf]    absWf(l) && gNext[l] == old(gNext[l])
+    ensures[keeps] forall o int64 :: gLive[l][o] ==> old(gLive[l][o])
+    ensures[none]    old(gCount[l]) <= max ==> forall o int64 :: old(gLive[l][o]) ==> gLive[l][o]
+    // what is removed lies inside a live prefix of exactly Messages-max elements (the selection handed to the removal)
+    assert[selection] gCount[l] > max && max >= 0 ==> livePrefix(l, offsets) && len(offsets) == gCount[l] - max at call DeleteMultiOffsets 1
+    // and, when the removal succeeds, it is a prefix of the live sequence
+    ensures[prefix]  err == nil ==> forall o int64, p int64 :: old(gLive[l][o]) && !gLive[l][o] && old(gLive[l][p]) && p < o ==> !gLive[l][p]
+    assert[pass_find]   arg1 == l && arg2 == max at call FindByCount 1
+    assert[pass_delete] arg1 == l && arg2 == offsets at call DeleteMultiOffsets 1
+
+func TrimByAge
+    flags noframe
+    requires absWf(l)
+    assigns gLive, gCount, gTotal, gDeleted
+    ensures[wf]    absWf(l) && gNext[l] == old(gNext[l])
+    ensures[keeps] forall o int64 :: gLive[l][o] ==> old(gLive[l][o])
+    // no message newer than the given time is removed
+    ensures[notnewer] forall o int64 :: old(gLive[l][o]) && gMicro[l][o] > micro(before) ==> gLive[l][o]
+    assert[pass_find]   arg1 == l && arg2 == before at call FindByAge 1
+    assert[pass_delete] recv == l && arg0 == offsets at call Log.Delete 1
+
+func TrimByAgeMulti
+    flags noframe
+    requires absWf(l)
+    assigns gLive, gCount, gTotal, gDeleted
+    ensures[wf]    absWf(l) && gNext[l] == old(gNext[l])
+    ensures[keeps] forall o int64 :: gLive[l][o] ==> old(gLive[l][o])
+    // no message newer than the given time is removed
+    ensures[notnewer] forall o int64 :: old(gLive[l][o]) && gMicro[l][o] > micro(before) ==> gLive[l][o]
+    // with non-decreasing times none older is left
+    ensures[noneolder] err == nil && old(absMono(l)) ==> forall o int64 :: gLive[l][o] ==> gMicro[l][o] >= micro(before)
+    ensures[prefix]  err == nil ==> forall o int64, p int64 :: old(gLive[l][o]) && !gLive[l][o] && old(gLive[l][p]) && p < o ==> !gLive[l][p]
+    assert[pass_find]   arg1 == l && arg2 == before at call FindByAge 1
+    assert[pass_delete] arg1 == l && arg2 == offsets at call DeleteMulti 1
+
+func TrimByAgeMultiOffsets
+    flags noframe
+    requires absWf(l)
+    assigns gLive, gCount, gTotal, gDeleted
+    ensures[wf]    absWf(l) && gNext[l] == old(gNext[l])
+    ensures[keeps] forall o int64 :: gLive[l][o] ==> old(gLive[l][o])
+    // no message newer than the given time is removed
+    ensures[notnewer] forall o int64 :: old(gLive[l][o]) && gMicro[l][o] > micro(before) ==> gLive[l][o]
+    // with non-decreasing times none older is left
+    ensures[noneolder] err == nil && old(absMono(l)) ==> forall o int64 :: gLive[l][o] ==> gMicro[l][o] >= micro(before)
+    ensures[prefix]  err == nil ==> forall o int64, p int64 :: old(gLive[l][o]) && !gLive[l][o] && old(gLive[l][p]) && p < o ==> !gLive[l][p]
+    assert[pass_find]   arg1 == l && arg2 == before at call FindByAge 1
+    assert[pass_delete] arg1 == l && arg2 == offsets at call DeleteMultiOffsets 1
+
+func TrimBySize
+    flags noframe
+    requires absWf(l)
+    assigns gLive, gCount, gTotal, gDeleted
+    ensures[wf]    absWf(l) && gNext[l] == old(gNext[l])
+    ensures[keeps] forall o int64 :: gLive[l][o] ==> old(gLive[l][o])
+    ensures[none]    old(gTotal[l]) < sz ==> forall o int64 :: old(gLive[l][o]) ==> gLive[l][o]
+    // what is handed to the removal is a live prefix that reaches the target (or everything) and is minimal
+    assert[selection] offsets != nil ==> livePrefix(l, offsets)
+                          && (gTotal[l] - sumSize(l, domain(offsets)) < sz || (forall o int64 :: gLive[l][o] ==> has(offsets, o))) at call Log.Delete 1
+    assert[selection_none] gTotal[l] < sz ==> offsets == nil at call Log.Delete 1
+    assert[pass_find]   arg1 == l && arg2 == sz at call FindBySize 1
+    assert[pass_delete] recv == l && arg0 == offsets at call Log.Delete 1
+
+func TrimBySizeMulti
+    flags noframe
+    requires absWf(l)
+    assigns gLive, gCount, gTotal, gDeleted
+    ensures[wf]    absWf(l) && gNext[l] == old(gNext[l])
+    ensures[keeps] forall o int64 :: gLive[l][o] ==> old(gLive[l][o])
+    ensures[none]    old(gTotal[l]) < sz ==> forall o int64 :: old(gLive[l][o]) ==> gLive[l][o]
+    ensures[prefix]  err == nil ==> forall o int64, p int64 :: old(gLive[l][o]) && !gLive[l][o] && old(gLive[l][p]) && p < o ==> !gLive[l][p]
+    // what is handed to the removal is a live prefix that reaches the target (or everything) and is minimal
+    assert[selection] offsets != nil ==> livePrefix(l, offsets)
+                          && (gTotal[l] - sumSize(l, domain(offsets)) < sz || (forall o int64 :: gLive[l][o] ==> has(offsets, o))) at call DeleteMulti 1
+    assert[selection_none] gTotal[l] < sz ==> offsets == nil at call DeleteMulti 1
+    assert[pass_find]   arg1 == l && arg2 == sz at call FindBySize 1
+    assert[pass_delete] arg1 == l && arg2 == offsets at call DeleteMulti 1
+
+func TrimBySizeMultiOffsets
+    flags noframe
+    requires absWf(l)
+    assigns gLive, gCount, gTotal, gDeleted
+    ensures[wf]    absWf(l) && gNext[l] == old(gNext[l])
+    ensures[keeps] forall o int64 :: gLive[l][o] ==> old(gLive[l][o])
+    ensures[none]    old(gTotal[l]) < sz ==> forall o int64 :: old(gLive[l][o]) ==> gLive[l][o]
+    ensures[prefix]  err == nil ==> forall o int64, p int64 :: old(gLive[l][o]) && !gLive[l][o] && old(gLive[l][p]) && p < o ==> !gLive[l][p]
+    // what is handed to the removal is a live prefix that reaches the target (or everything) and is minimal
+    assert[selection] offsets != nil ==> livePrefix(l, offsets)
+                          && (gTotal[l] - sumSize(l, domain(offsets)) < sz || (forall o int64 :: gLive[l][o] ==> has(offsets, o))) at call DeleteMulti 1
+    assert[selection_none] gTotal[l] < sz ==> offsets == nil at call DeleteMulti 1
+    assert[pass_find]   arg1 == l && arg2 == sz at call FindBySize 1
+    assert[pass_delete] arg1 == l && arg2 == offsets at call DeleteMulti 1
+
+func CompactUpdates
+    flags noframe
+    requires absWf(l)
+    assigns gLive, gCount, gTotal, gDeleted, tHas, tVal
+    ensures[wf]    absWf(l) && gNext[l] == old(gNext[l])
+    ensures[keeps] forall o int64 :: gLive[l][o] ==> old(gLive[l][o])
+    // the last live message of every key stays
+    ensures[keeplast] forall o int64 :: lastOfKey(old(gLive[l]), l, o) ==> gLive[l][o]
+    // only messages not newer than the cut-off that have a later message with the same key go
+    ensures[only]     forall o int64 :: old(gLive[l][o]) && !gLive[l][o] ==> gMicro[l][o] <= micro(before)
+                          && (exists p int64 :: old(gLive[l][p]) && o < p && gKey[l][p] == gKey[l][o])
+    assert[pass_find]   arg1 == l && arg2 == before at call FindUpdates 1
+    assert[pass_delete] recv == l && arg0 == offsets at call Log.Delete 1
+
+func CompactUpdatesMulti
+    flags noframe
+    requires absWf(l)
+    assigns gLive, gCount, gTotal, gDeleted, tHas, tVal
+    ensures[wf]    absWf(l) && gNext[l] == old(gNext[l])
+    ensures[keeps] forall o int64 :: gLive[l][o] ==> old(gLive[l][o])
+    // the last live message of every key stays
+    ensures[keeplast] forall o int64 :: lastOfKey(old(gLive[l]), l, o) ==> gLive[l][o]
+    // only messages not newer than the cut-off that have a later message with the same key go
+    ensures[only]     forall o int64 :: old(gLive[l][o]) && !gLive[l][o] ==> gMicro[l][o] <= micro(before)
+                          && (exists p int64 :: old(gLive[l][p]) && o < p && gKey[l][p] == gKey[l][o])
+    assert[pass_find]   arg1 == l && arg2 == before at call FindUpdates 1
+    assert[pass_delete] arg1 == l && arg2 == offsets at call DeleteMulti 1
+
+func CompactUpdatesMultiOffsets
+    flags noframe
+    requires absWf(l)
+    assigns gLive, gCount, gTotal, gDeleted, tHas, tVal
+    ensures[wf]    absWf(l) && gNext[l] == old(gNext[l])
+    ensures[keeps] forall o int64 :: gLive[l][o] ==> old(gLive[l][o])
+    // the last live message of every key stays
+    ensures[keeplast] forall o int64 :: lastOfKey(old(gLive[l]), l, o) ==> gLive[l][o]
+    // only messages not newer than the cut-off that have a later message with the same key go
+    ensures[only]     forall o int64 :: old(gLive[l][o]) && !gLive[l][o] ==> gMicro[l][o] <= micro(before)
+                          && (exists p int64 :: old(gLive[l][p]) && o < p && gKey[l][p] == gKey[l][o])
+    assert[pass_find]   arg1 == l && arg2 == before at call FindUpdates 1
+    assert[pass_delete] arg1 == l && arg2 == offsets at call DeleteMultiOffsets 1
+
+func CompactDeletes
+    flags noframe
+    requires absWf(l)
+    assigns gLive, gCount, gTotal, gDeleted, tHas, tVal
+    ensures[wf]    absWf(l) && gNext[l] == old(gNext[l])
+    ensures[keeps] forall o int64 :: gLive[l][o] ==> old(gLive[l][o])
+    // the last live message of a key goes only if it has no value and is the key's only message (absent before and after)
+    ensures[keeplatest] forall o int64 :: lastOfKey(old(gLive[l]), l, o) && !gLive[l][o] ==>
+                          !gHasValue[l][o] && (forall p int64 :: old(gLive[l][p]) && gKey[l][p] == gKey[l][o] ==> p == o)
+    // only value-less messages not newer than the cut-off that are the oldest live message of their key go
+    ensures[only]     forall o int64 :: old(gLive[l][o]) && !gLive[l][o] ==> !gHasValue[l][o] && gMicro[l][o] <= micro(before)
+                          && (forall p int64 :: old(gLive[l][p]) && p < o ==> gKey[l][p] != gKey[l][o])
+    assert[pass_find]   arg1 == l && arg2 == before at call FindDeletes 1
+    assert[pass_delete] recv == l && arg0 == offsets at call Log.Delete 1
+
+func CompactDeletesMulti
+    flags noframe
+    requires absWf(l)
+    assigns gLive, gCount, gTotal, gDeleted, tHas, tVal
+    ensures[wf]    absWf(l) && gNext[l] == old(gNext[l])
+    ensures[keeps] forall o int64 :: gLive[l][o] ==> old(gLive[l][o])
+    // the last live message of a key goes only if it has no value and is the key's only message (absent before and after)
+    ensures[keeplatest] forall o int64 :: lastOfKey(old(gLive[l]), l, o) && !gLive[l][o] ==>
+                          !gHasValue[l][o] && (forall p int64 :: old(gLive[l][p]) && gKey[l][p] == gKey[l][o] ==> p == o)
+    // only value-less messages not newer than the cut-off that are the oldest live message of their key go
+    ensures[only]     forall o int64 :: old(gLive[l][o]) && !gLive[l][o] ==> !gHasValue[l][o] && gMicro[l][o] <= micro(before)
+                          && (forall p int64 :: old(gLive[l][p]) && p < o ==> gKey[l][p] != gKey[l][o])
+    assert[pass_find]   arg1 == l && arg2 == before at call FindDeletes 1
+    assert[pass_delete] arg1 == l && arg2 == offsets at call DeleteMulti 1
+
+func CompactDeletesMultiOffsets
+    flags noframe
+    requires absWf(l)
+    assigns gLive, gCount, gTotal, gDeleted, tHas, tVal
+    ensures[wf]    absWf(l) && gNext[l] == old(gNext[l])
+    ensures[keeps] forall o int64 :: gLive[l][o] ==> old(gLive[l][o])
+    // the last live message of a key goes only if it has no value and is the key's only message (absent before and after)
+    ensures[keeplatest] forall o int64 :: lastOfKey(old(gLive[l]), l, o) && !gLive[l][o] ==>
+                          !gHasValue[l][o] && (forall p int64 :: old(gLive[l][p]) && gKey[l][p] == gKey[l][o] ==> p == o)
+    // only value-less messages not newer than the cut-off that are the oldest live message of their key go
+    ensures[only]     forall o int64 :: old(gLive[l][o]) && !gLive[l][o] ==> !gHasValue[l][o] && gMicro[l][o] <= micro(before)
+                          && (forall p int64 :: old(gLive[l][p]) && p < o ==> gKey[l][p] != gKey[l][o])
+    assert[pass_find]   arg1 == l && arg2 == before at call FindDeletes 1
+    assert[pass_delete] arg1 == l && arg2 == offsets at call DeleteMultiOffsets 1
+
+// GC releases resources of the implementation; it does not change the abstract log (assumed for the interface;
+// for klevdb's own log see the gc_* clauses of (*reader).GC)
+iface Log.GC
+    requires absWf(self)
+    ensures true
+
+func Compact
+    flags noframe
+    requires absWf(l)
+    assigns gLive, gCount, gTotal, gDeleted, tHas, tVal
+    ensures[wf]    absWf(l) && gNext[l] == old(gNext[l])
+    ensures[keeps] forall o int64 :: gLive[l][o] ==> old(gLive[l][o])
+    // the latest value of every key is unchanged: a last message with a value stays; one without value
+    // goes only if it was the key's only message
+    ensures[latest_value]  forall o int64 :: lastOfKey(old(gLive[l]), l, o) && gHasValue[l][o] ==> gLive[l][o]
+    ensures[latest_absent] forall o int64 :: lastOfKey(old(gLive[l]), l, o) && !gLive[l][o] ==>
+                               (forall p int64 :: gLive[l][p] ==> gKey[l][p] != gKey[l][o])
+    assert[pass_updates] arg1 == l at call CompactUpdatesMultiOffsets 1
+    assert[pass_deletes] arg1 == l at call CompactDeletesMultiOffsets 1
+
 // ================================================================ key lookups (C09)
 
 // record k of file f carries exactly the key (content equality; nil and empty are the same sequence)
